@@ -6,4 +6,7 @@ f21_0:
   call f4_1
   call f31_0
   call f19_0
+  mov wvsv0@GOTPCREL(%rip),%rax
+  mov wvsv0(%rip),%rax
+  mov wvsv1(%rip),%rax
   ret
